@@ -22,9 +22,9 @@ func init() {
 					"*interval.upper": "(upper.getD 0)", "when": "when", "interval.lower == nil": "lower.isNone", "interval.upper == nil": "upper.isNone"}})},
 		{"IndexByDate.loopShape", indexByDateShape(ml)},
 		// shardInterval: refused when inverted (or empty).
-		{"shardInterval.inverted", condKernel(ml, "shardInterval", []string{"interval.lower", "interval.upper", "Before"}, "shardIntervalInverted", "(lower upper : Option Int)",
-			Spec{Repl: map[string]string{"interval.lower != nil": "lower.isSome", "interval.upper != nil": "upper.isSome",
-				"(*interval.lower)": "(lower.getD 0)", "*interval.upper": "(upper.getD 0)"}})},
+		{"shardInterval.inverted", condKernel(ml, "shardInterval", []string{".lower != nil", ".upper != nil", "Before"}, "shardIntervalInverted", "(lower upper : Option Int)",
+			Spec{Repl: map[string]string{"….lower != nil": "lower.isSome", "….upper != nil": "upper.isSome",
+				"(*….lower)": "(lower.getD 0)", "*….upper": "(upper.getD 0)", "….lower": "(lower.getD 0)"}})},
 		// NewTemporalLogClient: one step of the contiguity loop; `none` = construction refused, `some u` = new overall upper bound.
 		{"NewTemporalLogClient.step", loopBodyKernel(ml, "NewTemporalLogClient", "i < len(cfg.Shard)", "temporalStep",
 			"(overallUpper lower upper : Option Int)", "Option (Option Int)", "some overallUpper",
